@@ -357,6 +357,24 @@ func c01Cases(a *ChildArgs) []c01Case {
 			}
 		}
 	case "families":
+		// a small exhaustive grid the random generator rarely hits: every pair of literal kinds under every comparison,
+		// in the positions consumers look at (WHERE, OR chain, JOIN ON, sub-query, CASE, HAVING, function argument)
+		lits := []string{"1", "0", "1.5", "'x'", "''", "NULL", "TRUE", "FALSE", "$1", "-1", "(1)", "'1'", "X'ff'", "INTERVAL '1 day'", "ARRAY[1]", "(SELECT 1)"}
+		cmps := []string{"=", "<>", "<", ">=", "IS NOT DISTINCT FROM", "LIKE", "IN"}
+		ctxs := []string{"SELECT a FROM t WHERE %s", "SELECT a FROM t WHERE a = 1 OR %s", "SELECT a FROM t JOIN u ON %s", "SELECT a FROM t WHERE a IN (SELECT b FROM u WHERE %s)",
+			"SELECT CASE WHEN %s THEN 1 END FROM t", "SELECT a FROM t GROUP BY a HAVING %s", "SELECT f(%s) FROM t", "UPDATE t SET a = 1 WHERE %s", "DELETE FROM t WHERE NOT (%s)"}
+		for li, l1 := range lits {
+			for ri, l2 := range lits {
+				for ci, cmp := range cmps {
+					ctx := ctxs[(li+ri+ci)%len(ctxs)]
+					l1, l2, cmp := l1, l2, cmp
+					if cmp == "IN" {
+						l2 = "(" + l2 + ", " + l1 + ")"
+					}
+					cs = append(cs, c01Case{ID: fmt.Sprintf("litpair/%d-%d-%d", li, ri, ci), Text: func() string { return fmt.Sprintf(ctx, l1+" "+cmp+" "+l2) }})
+				}
+			}
+		}
 		sizes := []int{1, 2, 3, 50, 99, 100, 101, 150, 1000, 4000}
 		if !quick {
 			sizes = append(sizes, 9000, 16000)
